@@ -129,6 +129,15 @@ def is_raise_of(stmt: ast.stmt, exc_names: Iterable[str]) -> bool:
     return (A.dotted(e) or "").split(".")[-1] in set(exc_names)
 
 
+def _pure_message_call(c: ast.Call) -> bool:
+    """calls that only build a message text: type(x), repr(x), str(x), len(x), "..".format(..), ", ".join(..)"""
+    if isinstance(c.func, ast.Name):
+        return c.func.id in ("type", "repr", "str", "len", "format", "sorted", "list", "tuple", "getattr", "isinstance")
+    if isinstance(c.func, ast.Attribute):
+        return c.func.attr in ("format", "join")
+    return False
+
+
 def refusing_body(body: List[ast.stmt], exc=("NotImplementedError",)) -> bool:
     """the arm does nothing but raise the explicit not-implemented error:
     optional pure statements (string assignment, logging) then `raise X`"""
@@ -137,7 +146,7 @@ def refusing_body(body: List[ast.stmt], exc=("NotImplementedError",)) -> bool:
     if not is_raise_of(body[-1], exc):
         return False
     for s in body[:-1]:
-        if isinstance(s, ast.Assign) and all(isinstance(t, ast.Name) for t in s.targets) and not any(isinstance(n, ast.Call) for n in ast.walk(s.value)):
+        if isinstance(s, ast.Assign) and all(isinstance(t, ast.Name) for t in s.targets) and all(_pure_message_call(n) for n in ast.walk(s.value) if isinstance(n, ast.Call)):
             continue
         if isinstance(s, ast.Expr) and isinstance(s.value, ast.Call) and (A.dotted(s.value.func) or "").split(".")[0] in ("_logger", "logger", "logging", "warnings"):
             continue
@@ -285,3 +294,171 @@ def see_through(ctx, fn: FunctionInfo, e: Optional[ast.AST], depth: int = 3) -> 
                 continue
         break
     return e
+
+
+def expand_aliases(ctx, fn: FunctionInfo, e: ast.AST, depth: int = 2) -> ast.AST:
+    """a copy of e in which every local that is bound exactly once to a pure selector expression
+    (attribute / subscript chain: `last = block.tree[-1]`) is replaced by that expression"""
+    import copy as _copy
+
+    def pure(x: ast.AST) -> bool:
+        if isinstance(x, ast.Name):
+            return True
+        if isinstance(x, ast.Attribute):
+            return pure(x.value)
+        if isinstance(x, ast.Subscript):
+            return pure(x.value) and isinstance(x.slice, (ast.Constant, ast.Name, ast.UnaryOp))
+        return False
+
+    class T(ast.NodeTransformer):
+        def visit_Name(self, n: ast.Name) -> ast.AST:
+            if isinstance(n.ctx, ast.Load):
+                v = see_through(ctx, fn, n, depth=1)
+                if v is not None and v is not n and not isinstance(v, ast.Name) and pure(v):
+                    return _copy.deepcopy(v)
+            return n
+
+    # the original node keeps its parent links: look names up there, rewrite a copy
+    out = e
+    for _ in range(depth):
+        names = [x for x in ast.walk(out) if isinstance(x, ast.Name)]
+        repl = {}
+        for x in names:
+            if isinstance(x.ctx, ast.Load) and getattr(x, "_parent", None) is not None:
+                v = see_through(ctx, fn, x, depth=1)
+                if v is not None and v is not x and not isinstance(v, ast.Name) and pure(v):
+                    repl[x.id] = v
+        if not repl:
+            break
+
+        class R(ast.NodeTransformer):
+            def visit_Name(self, n: ast.Name) -> ast.AST:
+                if isinstance(n.ctx, ast.Load) and n.id in repl:
+                    return repl[n.id]
+                return n
+
+        new = R().visit(_copy.deepcopy(out) if False else _shallow_copy(out))
+        out = new
+    return out
+
+
+def _shallow_copy(e: ast.AST) -> ast.AST:
+    """structural copy that keeps leaf nodes shared (so that parent links of the originals stay usable)"""
+    if not isinstance(e, ast.AST):
+        return e
+    if isinstance(e, ast.Name):
+        return e
+    new = type(e)()
+    for f, v in ast.iter_fields(e):
+        if isinstance(v, list):
+            setattr(new, f, [_shallow_copy(x) for x in v])
+        else:
+            setattr(new, f, _shallow_copy(v) if isinstance(v, ast.AST) else v)
+    for a in ("lineno", "col_offset", "end_lineno", "end_col_offset"):
+        if hasattr(e, a):
+            setattr(new, a, getattr(e, a))
+    return new
+
+
+def _deep_clone(e):
+    """copy of an AST without the parent links the model adds (copy.deepcopy would follow them)"""
+    if isinstance(e, list):
+        return [_deep_clone(x) for x in e]
+    if not isinstance(e, ast.AST):
+        return e
+    new = type(e)()
+    for f, v in ast.iter_fields(e):
+        setattr(new, f, _deep_clone(v))
+    for a in ("lineno", "col_offset", "end_lineno", "end_col_offset"):
+        if hasattr(e, a):
+            setattr(new, a, getattr(e, a))
+    return new
+
+
+_EXPANDED: Dict[int, ast.AST] = {}
+
+
+def expanded_function(fn: FunctionInfo) -> ast.AST:
+    """A private copy of the function in which locals that merely name a selector expression are read
+    through: `offset, opname = inst.offset, inst.opname`, `targets = b.jump_targets`, `t = self.table[k]`.
+    For rules that compare texts; line numbers are those of the original nodes.  A local qualifies when it
+    is bound exactly once, to an attribute / constant-subscript chain (or a tuple of such, unpacked), whose
+    root names are themselves bound at most once (parameters, loop variables)."""
+    key = id(fn.node)
+    if key in _EXPANDED:
+        return _EXPANDED[key]
+    node = _deep_clone(fn.node)
+    stores: Dict[str, int] = {}
+    for n in ast.walk(node):
+        if isinstance(n, ast.Name) and isinstance(n.ctx, (ast.Store, ast.Del)):
+            stores[n.id] = stores.get(n.id, 0) + 1
+
+    def pure(x: ast.AST) -> bool:
+        if isinstance(x, ast.Name):
+            return True
+        if isinstance(x, ast.Attribute):
+            return pure(x.value)
+        if isinstance(x, ast.Subscript):
+            return pure(x.value) and isinstance(x.slice, (ast.Constant, ast.Name)) or (isinstance(x.slice, ast.UnaryOp) and isinstance(x.slice.operand, ast.Constant) and pure(x.value))
+        return False
+
+    def roots_ok(x: ast.AST) -> bool:
+        return all(stores.get(n.id, 0) <= 1 for n in ast.walk(x) if isinstance(n, ast.Name))
+
+    for _round in range(3):
+        repl: Dict[str, ast.AST] = {}
+        drop: List[Tuple[list, ast.stmt]] = []
+        for holder in ast.walk(node):
+            for fld in ("body", "orelse", "finalbody"):
+                seq = getattr(holder, fld, None)
+                if not (isinstance(seq, list) and seq and isinstance(seq[0], ast.stmt)):
+                    continue
+                for st in seq:
+                    if not (isinstance(st, ast.Assign) and len(st.targets) == 1):
+                        continue
+                    tg, v = st.targets[0], st.value
+                    pairs = []
+                    if isinstance(tg, ast.Name) and not isinstance(v, ast.Name) and pure(v):
+                        pairs = [(tg.id, v)]
+                    elif isinstance(tg, ast.Tuple) and isinstance(v, ast.Tuple) and len(tg.elts) == len(v.elts) and all(isinstance(t_, ast.Name) for t_ in tg.elts) and all(pure(x) and not isinstance(x, ast.Name) for x in v.elts):
+                        pairs = [(t_.id, x) for t_, x in zip(tg.elts, v.elts)]
+                    # a temporary used once, in the very next statement (`ft = f(x); g(ft, y)`)
+                    if not pairs and isinstance(tg, ast.Name) and stores.get(tg.id, 0) == 1 and not isinstance(v, (ast.Name, ast.Constant)):
+                        i_ = seq.index(st)
+                        uses_all = [n for n in ast.walk(node) if isinstance(n, ast.Name) and n.id == tg.id and isinstance(n.ctx, ast.Load)]
+                        if i_ + 1 < len(seq) and len(uses_all) == 1:
+                            nxt = seq[i_ + 1]
+                            hdr = [nxt] if not isinstance(nxt, (ast.If, ast.For, ast.While, ast.With, ast.Try)) else [getattr(nxt, "test", None) or getattr(nxt, "iter", None)]
+                            if any(h is not None and any(u is uses_all[0] for u in ast.walk(h)) for h in hdr) and not any(isinstance(x, (ast.Lambda, ast.ListComp, ast.SetComp, ast.DictComp, ast.GeneratorExp)) and any(u is uses_all[0] for u in ast.walk(x)) for h in hdr if h is not None for x in ast.walk(h)):
+                                repl[tg.id] = v
+                                drop.append((seq, st))
+                                continue
+                    if pairs and all(stores.get(nm, 0) == 1 and roots_ok(x) and nm not in {n.id for n in ast.walk(x) if isinstance(n, ast.Name)} for nm, x in pairs):
+                        for nm, x in pairs:
+                            repl[nm] = x
+                        drop.append((seq, st))
+        if not repl:
+            break
+
+        class R(ast.NodeTransformer):
+            depth = 0
+
+            def visit_Name(self, n: ast.Name) -> ast.AST:
+                if isinstance(n.ctx, ast.Load) and n.id in repl and self.depth < 4:
+                    self.depth += 1
+                    new_ = self.visit(_deep_clone(repl[n.id]))  # the value may mention other aliases of this round
+                    self.depth -= 1
+                    return new_
+                return n
+
+        for seq, st in drop:
+            if st in seq:
+                seq.remove(st)
+                if not seq:
+                    seq.append(ast.copy_location(ast.Pass(), st))
+        node = R().visit(node)
+        for nm in repl:
+            stores[nm] = 0
+    A.set_parents(node)
+    _EXPANDED[key] = node
+    return node
